@@ -190,7 +190,7 @@ def lower_compiled(cpp, nr):
         (r'MAYBE_UNUSED static inline bool match%d\(const Token\* tok(?:, const int varid)?\)\s*\{' % nr, 'static _Bool match%d(const struct Token *tok, const int varid) {' % nr, 1, 1),
         (r'throw InternalError\([^;]*\);', '{ VERIF_THROW(); return 0; }', 0),
         (r'\bvarid==0U\b', 'varid==0', 0),
-    ] + lower_token_exprs() + [(r'\bnullptr\b', 'NULL', 0)]
+    ] + lower_token_exprs() + [(r'(?<!")\bnullptr\b(?!")', 'NULL', 0)]     # the keyword, not the pattern word "nullptr" inside a literal
     t, fired = extract.apply_rules(cpp, rules, "matchcompiler output %d" % nr)
     extract.residue_scan(t, "compiled match%d" % nr)
     return t
